@@ -49,7 +49,10 @@ type c09W struct {
 
 var ixFields = []string{"f", "g.h", "n"}
 var ixDocs = []string{"d1", "d2", "d3", "d4"}
-var ixStrs = []string{"x", "y", "x y"}
+// long terms that differ only after several hundred (thousand) bytes: a term
+// is stored whole, whatever its length
+var ixLong = []string{strings.Repeat("x", 300) + "-alpha", strings.Repeat("x", 300) + "-beta", strings.Repeat("yz", 1100) + "1", strings.Repeat("yz", 1100) + "2"}
+var ixStrs = []string{"x", "y", "x y", ixLong[0], ixLong[1], ixLong[2], ixLong[3]}
 var ixNums = []float64{-1e9, -2.5, -1, 0, 0.5, 1, 2, 1e-9, 1e9, math.MaxFloat64, math.SmallestNonzeroFloat64, -math.MaxFloat64}
 
 func init() {
@@ -86,6 +89,9 @@ func ixWindows() [][2]float64 {
 func ixValue(r *Rng) interface{} {
 	switch r.Intn(10) {
 	case 0, 1, 2:
+		if r.Chance(70) {
+			return Pick(r, ixStrs[:3])
+		}
 		return Pick(r, ixStrs)
 	case 9:
 		return true // unsupported term type: must not be indexed
